@@ -207,7 +207,7 @@ theorem ObeyCore.creator {inp : Input} {s s' : Sys} (h : ObeyCore inp s) (c : CI
   · rw [h3]; simp only [utdOK]; exact h.utd
 
 theorem core_evalCreator {inp : Input} {s : Sys} {l : LId} (tname : Name) (h : ObeyCore inp s) :
-    ObeyCore inp (evalCreator inp s l tname) := by
+    ObeyCore inp (evalCreator inp s l tname b) := by
   unfold evalCreator
   cases regTargets s.targets (targetPairs (inp.make (inp.creatorOf l) tname)) with
   | none => exact h.creator (inp.creatorOf l) rfl rfl
